@@ -14,8 +14,10 @@
    (dict-based code) are hand-written models in Model/Pgf.v tied by point evaluation on every run.
    What stays cited: the lift from corresponding vector fields + corresponding initial points to coinciding curves
    (Picard-Lindeloef uniqueness), for the continuous-time models.  The discrete-time pair is an exact recurrence and
-   is proved for every number of steps.  Not proved: the full (s,i) effective degree model (numerical only). *)
-From EoNV Require Import Prelude Graph Vec VecP Aux AuxP IC Wrappers ICP Pgf C07xPoly C07xHier C07xIC C07xPref C07xMf C07xCed C07xCedIC Rhs.
+   is proved for every number of steps.  The (s,i) effective degree model is the hand-written Model/Rhs2D.v definition
+   (C07x_ebcm_to_effective_degree) and the definition generated from the source (C07x_ebcm_to_effective_degree_generated).
+   Not proved: that SIR_effective_degree_from_graph starts at Phi_ed(1,0) (checked numerically on every run). *)
+From EoNV Require Import Prelude Graph Vec VecP Aux AuxP IC Wrappers ICP Pgf C07xPoly C07xHier C07xIC C07xPref C07xMf C07xCed C07xCedIC C07xEd Rhs Rhs2D Rhs2.
 
 (* ---------- the formal derivative is the derivative ---------- *)
 Theorem C07x_formal_derivative_is_derivative : forall (F : pmap) x h,
@@ -83,6 +85,28 @@ Theorem C07x_ebcm_to_compact_effective_degree : forall c t N tau g phiS0 phiR0 (
   veq (dSIR_compact_effective_degree (Phi_ced c N tau g phiS0 phiR0 theta R) t N tau g)
       (DPhi_ced c N tau g phiS0 phiR0 theta (vnth 0 e) (vnth 1 e)).
 Proof. exact ebcm_to_ced. Qed.
+
+(* EBCM (theta, R) -> effective degree (S_{s,i}, R), shape (K, K), K = number of degree classes:
+   S_{s,i} = N sum_k c_k C(k,s) C(k-s,i) phiS^s phiI^i phiR^(k-s-i) (trinomial; every entry a polynomial in theta, Pgf.ed_sum).
+   Proof: trinomial moments sum S = N psihat, sum s S = N phiS psihat', sum i s S = N phiS phiI psihat'' (from the binomial
+   moments, twice), absorption identities for the two shifted entries, boundary entries vanish on the manifold.
+   phiS <> 0: the code divides by sum s S_{s,i}; phiI + phiR <> 0 is used to cancel in the mixed moment. *)
+Theorem C07x_ebcm_to_effective_degree : forall c t N tau g phiS0 phiR0 (ps psP : Q -> Q) theta,
+  ~ theta == 0 -> ~ peval (phiI_p c tau g phiS0 phiR0) theta + peval (phiR_p tau g phiR0) theta == 0 -> forall R,
+  ps theta == peval c theta -> psP theta == D c theta -> psP 1 == D c 1 ->
+  ~ tau == 0 -> ~ N == 0 -> ~ peval (phiS_p c phiS0) theta == 0 -> ~ D c theta == 0 -> ~ D c 1 == 0 ->
+  let e := dEBCM [theta; R] t N tau g ps psP phiS0 phiR0 in
+  veq (dSIR_effective_degree (Phi_ed c N tau g phiS0 phiR0 theta R) N (length c) (length c) tau g t)
+      (DPhi_ed c N tau g phiS0 phiR0 theta (vnth 0 e) (vnth 1 e)).
+Proof. exact ebcm_to_ed. Qed.
+Theorem C07x_ebcm_to_effective_degree_generated : forall c t N tau g phiS0 phiR0 (ps psP : Q -> Q) theta,
+  ~ theta == 0 -> ~ peval (phiI_p c tau g phiS0 phiR0) theta + peval (phiR_p tau g phiR0) theta == 0 -> forall R,
+  ps theta == peval c theta -> psP theta == D c theta -> psP 1 == D c 1 ->
+  ~ tau == 0 -> ~ N == 0 -> ~ peval (phiS_p c phiS0) theta == 0 -> ~ D c theta == 0 -> ~ D c 1 == 0 ->
+  let e := dEBCM [theta; R] t N tau g ps psP phiS0 phiR0 in
+  veq (g_dSIR_effective_degree (Phi_ed c N tau g phiS0 phiR0 theta R) t N (length c, length c) tau g)
+      (DPhi_ed c N tau g phiS0 phiR0 theta (vnth 0 e) (vnth 1 e)).
+Proof. exact ebcm_to_ed_generated. Qed.
 
 (* ---------- the wrappers, rho path: closures and initial points ---------- *)
 (* psihat, psihatPrime, psihatDPrime as written in EBCM_from_graph / SIR_super_compact_pairwise_from_graph are the
@@ -205,6 +229,22 @@ Proof.
   split; [intro H; vm_compute in H; discriminate|]. cbv zeta. split; [|intro H; vm_compute in H; discriminate].
   apply veqb_sound. vm_compute. reflexivity.
 Qed.
+(* three degree classes P = (0, 1/2, 1/2), phiS0 = 3/4, tau = 1, gamma = 1/2, theta = 7/8 (phiS = 11/16, phiI = 1/8, phiR = 1/16):
+   the hypotheses of the effective degree theorem hold and the field is not zero *)
+Example C07x_nonvacuous_ed :
+  let c3 := [0; 1 # 2; 1 # 2] in
+  ~ peval (phiI_p c3 1 (1 # 2) (3 # 4) 0) (7 # 8) + peval (phiR_p 1 (1 # 2) 0) (7 # 8) == 0 /\
+  ~ peval (phiS_p c3 (3 # 4)) (7 # 8) == 0 /\ ~ D c3 (7 # 8) == 0 /\ ~ D c3 1 == 0 /\
+  0 < peval (phiI_p c3 1 (1 # 2) (3 # 4) 0) (7 # 8) /\
+  (let e := dEBCM [7 # 8; 3] 0 16 1 (1 # 2) (peval c3) (peval (pderiv c3)) (3 # 4) 0 in
+   veq (dSIR_effective_degree (Phi_ed c3 16 1 (1 # 2) (3 # 4) 0 (7 # 8) 3) 16 3 3 1 (1 # 2) 0)
+       (DPhi_ed c3 16 1 (1 # 2) (3 # 4) 0 (7 # 8) (vnth 0 e) (vnth 1 e)) /\
+   ~ vnth 4 (dSIR_effective_degree (Phi_ed c3 16 1 (1 # 2) (3 # 4) 0 (7 # 8) 3) 16 3 3 1 (1 # 2) 0) == 0).
+Proof.
+  cbv zeta. do 4 (split; [intro H; vm_compute in H; discriminate|]). split; [vm_compute; reflexivity|].
+  split; [|intro H; vm_compute in H; discriminate].
+  apply veqb_sound. vm_compute. reflexivity.
+Qed.
 (* the path 0-1-2 (degrees 1,2,1), rho = 1/4: a wf graph with psihat'(1) <> 0, so the initial-point theorems apply *)
 Example C07x_nonvacuous_graph :
   wf_ugraph path3 = true /\ ~ D (fg_coeffs path3 (1 # 4)) 1 == 0 /\
@@ -239,6 +279,9 @@ Print Assumptions C07x_outputs_agree.
 Print Assumptions C07x_ebcm_to_compact_effective_degree.
 Print Assumptions C07x_compact_effective_degree_from_graph_on_manifold.
 Print Assumptions C07x_nonvacuous_ced.
+Print Assumptions C07x_ebcm_to_effective_degree.
+Print Assumptions C07x_ebcm_to_effective_degree_generated.
+Print Assumptions C07x_nonvacuous_ed.
 Print Assumptions C07x_wrapper_closures_are_polynomials.
 Print Assumptions C07x_EBCM_from_graph_rho.
 Print Assumptions C07x_super_compact_from_graph_on_manifold.
